@@ -110,7 +110,7 @@ func TestZZVerifReplay(t *testing.T) {
 	ovb, _ := json.Marshal(map[string]any{"Replace": repl})
 	ovFile := filepath.Join(tmp, "overlay.json")
 	os.WriteFile(ovFile, ovb, 0o644)
-	args := []string{"test", "-vet=off", "-count=1", "-overlay", ovFile, "-run", "^TestZZVerifReplay$", "-timeout", "240s"}
+	args := []string{"test", "-tags", "verif", "-vet=off", "-count=1", "-overlay", ovFile, "-run", "^TestZZVerifReplay$", "-timeout", "240s"}
 	if rf.Mode == "race" {
 		args = append(args, "-race")
 	}
